@@ -351,6 +351,9 @@ func (c *Conn) SetDeadline(t time.Time) error {
 // pending and future Reads fail with a timeout net.Error until the deadline is changed. The event
 // name.setReadDeadline(past|future|zero) is logged after the deadline is in effect.
 func (c *Conn) SetReadDeadline(t time.Time) error {
+	// interposition point BEFORE the deadline takes effect: a plan can let something else (e.g. a
+	// Shutdown setting its own deadline) happen between the caller's decision and its effect
+	c.point("setReadDeadline.enter(" + pastFutureZero(t) + ")")
 	c.p.mu.Lock()
 	if c.closed {
 		c.p.mu.Unlock()
